@@ -1,7 +1,7 @@
 """Contracts of the story-level merges (C01, C03, C05, C06, C12, C13)."""
 import z3
 from pyvc import logic as L
-from pyvc.logic import Node, Str, null, none_s, text, is_msg, born, forall_nodes, forall_ints
+from pyvc.logic import Node, Str, null, none_s, text, is_msg, born, orig, cp, forall_nodes, forall_ints
 from pyvc.values import *
 from pyvc.contracts import contract, Contract, Case, LoopSpec
 from .common import *
@@ -83,3 +83,268 @@ class StoryMoveMerge(MergeContract):
         out.append(('C01.no_error_when_references_resolve',
                     z3.Not(A(n >= 1, z3.Not(none_resolves(V0, src_id)), z3.Or(z3.Not(has_target), z3.Not(none_resolves(V0, tgt_id)))))))
         return out
+
+
+# ------------------------------------------------------------------ roStoryAppend
+from .loops import InsertCopies
+
+
+class CarriedStories:
+    """the <story> children of the message base tag (or of element_source)"""
+    source_parent_tag = None     # None: base tag itself; else 'element_source'
+
+    def carried_parent(self, cx):
+        mb = self.mb(cx)
+        if self.source_parent_tag:
+            return cx.H.find(mb, cx.W.lit(self.source_parent_tag))
+        return mb
+
+    def carried(self, cx, j):
+        return cx.H.fanode(self.carried_parent(cx), cx.W.lit('story'), j)
+
+    def n_carried(self, cx):
+        return cx.H.falen(self.carried_parent(cx), cx.W.lit('story'))
+
+    def carried_shape(self, cx):
+        H, lit = cx.H, cx.W.lit
+        cp_ = self.carried_parent(cx)
+        return [('Shape.carried_stories_have_storyID',
+                 forall_nodes(1, lambda s: Imp(A(H.mem(cp_, s), H.tag(s) == lit('story')), H.find(s, lit('storyID')) != null),
+                              patterns=lambda s: [H.mem(cp_, s)])),
+                ('Shape.carried_story_durations_numeric',
+                 forall_nodes(1, lambda s: Imp(A(H.mem(cp_, s), H.tag(s) == lit('story')), timing_ok(cx.W, H, s)),
+                              patterns=lambda s: [H.mem(cp_, s)])),
+                ('Shape.carried_items_have_itemID',
+                 forall_nodes(2, lambda s, i: Imp(A(H.mem(cp_, s), H.tag(s) == lit('story'), H.mem(s, i), H.tag(i) == lit('item')),
+                                                  H.find(i, lit('itemID')) != null),
+                              patterns=lambda s, i: [z3.MultiPattern(H.mem(cp_, s), H.mem(s, i))]))]
+
+
+class StoryInsertLoop(InsertCopies):
+    def parent(self, cx, lp): return self.owner.V0(cx).base
+    def carried(self, cx, lp, j): return self.owner.carried(cx, j)
+    def ctag(self, cx): return cx.W.lit('story')
+
+
+@contract('mosromgr.mostypes.StoryAppend.merge')
+class StoryAppendMerge(CarriedStories, MergeContract):
+    props = ('C01', 'C03', 'C04', 'C05', 'C06', 'C12', 'C13', 'C14')
+    cls_name = 'StoryAppend'
+    base_tag_name = 'roStoryAppend'
+    frame = 'base'
+
+    def shape(self, cx):
+        return self.carried_shape(cx)
+
+    def loop(self, ordinal):
+        if ordinal == 0:
+            lp = StoryInsertLoop(self)
+            lp.idx0 = lambda cx, l: cx.H.len(self.V0(cx).base)
+            return lp
+
+    def ensures(self, cx, ex):
+        V0, H0, H1 = self.V0(cx), cx.H, ex.H
+        P = V0.base
+        n = self.n_carried(cx)
+        c0 = cx.clock
+        newn = lambda j: cp(c0 + j + 1, self.carried(cx, j))
+        out = self.std_normal(cx, ex)
+        out.append(('C01+C03.old_children_keep_order', keep_order(H0, H1, P, lambda z: z3.BoolVal(False))))
+        out.append(('C01+C04.appended_in_message_order_after_everything',
+                    forall_ints(1, lambda j: Imp(A(0 <= j, j < n),
+                                                 A(H1.mem(P, newn(j)), H1.tag(newn(j)) == cx.W.lit('story'),
+                                                   forall_nodes(1, lambda z: Imp(H0.mem(P, z), H1.pos(P, z) < H1.pos(P, newn(j)))),
+                                                   forall_ints(1, lambda j2: Imp(A(0 <= j2, j2 < j), H1.pos(P, newn(j2)) < H1.pos(P, newn(j)))))))))
+        out.append(('C01.no_other_story_added',
+                    forall_nodes(1, lambda z: Imp(H1.mem(P, z), z3.Or(H0.mem(P, z),
+                                                                      A(c0 < born(z), born(z) <= c0 + n, z == newn(born(z) - c0 - 1)))))))
+        out.append(('C06.no_warning_when_applied', z3.BoolVal([w for w in ex.st.warns if not w.startswith('*')] == [])))
+        return out
+
+
+# ------------------------------------------------------------------ roStoryDelete
+from .loops import DeleteByIds
+
+
+class StoryDeleteLoop(DeleteByIds):
+    category = 'StoryNotFoundWarning'
+    def parent(self, cx, lp): return self.owner.V0(cx).base
+    def ctag(self, cx): return cx.W.lit('story')
+    def idtag(self, cx): return cx.W.lit('storyID')
+    def ident(self, cx, lp, j): return self.owner.ident(cx, j)
+
+
+class DeleteStoriesContract(MergeContract):
+    """shared by roStoryDelete and roElementAction DELETE (stories)"""
+    frame = 'base'
+
+    def ensures(self, cx, ex):
+        V0, H0, H1 = self.V0(cx), cx.H, ex.H
+        P = V0.base
+        n = self.n_ids(cx)
+        ident = lambda j: self.ident(cx, j)
+        uniq = unique_story_ids(V0)
+        out = self.std_normal(cx, ex)
+        j = z3.Int('j!e')
+        out.append(('C01.every_named_story_is_gone',
+                    Imp(uniq, z3.ForAll([j], Imp(A(0 <= j, j < n, ident(j) != none_s),
+                                                 forall_nodes(1, lambda z: Imp(A(V0.is_story(z), V0.sid(z) == ident(j)), z3.Not(H1.mem(P, z)))))))))
+        named = lambda z: A(V0.is_story(z), z3.Exists([j], A(0 <= j, j < n, ident(j) != none_s, V0.sid(z) == ident(j))))
+        out.append(('C01+C03.nothing_else_removed_and_order_kept',
+                    A(forall_nodes(1, lambda z: A(Imp(H1.mem(P, z), H0.mem(P, z)),
+                                                  Imp(A(H0.mem(P, z), z3.Not(named(z))), H1.mem(P, z)))),
+                      forall_nodes(2, lambda z, w: Imp(A(H1.mem(P, z), H1.mem(P, w)),
+                                                       (H1.pos(P, z) < H1.pos(P, w)) == (H0.pos(P, z) < H0.pos(P, w)))))))
+        return out
+
+
+@contract('mosromgr.mostypes.StoryDelete.merge')
+class StoryDeleteMerge(DeleteStoriesContract):
+    props = ('C01', 'C03', 'C05', 'C06', 'C12', 'C13', 'C14')
+    cls_name = 'StoryDelete'
+    base_tag_name = 'roStoryDelete'
+
+    def n_ids(self, cx):
+        return cx.H.falen(self.mb(cx), cx.W.lit('storyID'))
+
+    def ident(self, cx, j):
+        return text(cx.H.fanode(self.mb(cx), cx.W.lit('storyID'), j))
+
+    def loop(self, ordinal):
+        if ordinal == 0:
+            return StoryDeleteLoop(self)
+
+
+# ------------------------------------------------------------------ roStoryInsert / EA INSERT
+class SkippingStoryInsertLoop(StoryInsertLoop):
+    """insert loop that skips carried stories whose ID is already in the running order"""
+    skipping = True
+    index_var = 'story_index'
+
+    def idx0(self, cx, lp):
+        return lp.entry.locals[self.index_var].t
+
+    def g_dw(self, cx):
+        return cx.data.setdefault('g_dw', cx.W.fresh_fun('dupwit', L.I, Node))
+
+    def cid(self, cx, lp, j):
+        return text(cx.H.find(self.carried(cx, lp, j), cx.W.lit('storyID')))
+
+    def extra_invariant(self, cx, lp):
+        V0 = self.owner.V0(cx)
+        k = lp.k
+        dw = self.g_dw(cx)
+        j = z3.Int('j!dw')
+        cur = lp.st.locals[self.index_var]
+        out = [('index_var', cur.t == self.idx0(cx, lp) + self.ins(cx, k))]
+        out.append(('ghost.skipped_iff_duplicate',
+                    z3.ForAll([j], Imp(A(0 <= j, j < k),
+                                       A(Imp(self.skipped(cx, j), A(V0.is_story(dw(j)), V0.sid(dw(j)) == self.cid(cx, lp, j))),
+                                         Imp(z3.Not(self.skipped(cx, j)),
+                                             forall_nodes(1, lambda s: Imp(V0.is_story(s), V0.sid(s) != self.cid(cx, lp, j)))))),
+                              patterns=[self.g_skipped(cx)(j)])))
+        return out
+
+    def ghost_update(self, cx, lp):
+        k = lp.k
+        c0 = lp.entry.clock
+        inserted = any(w[0] == 'kids' for w in lp.st.writes[len(lp.head.writes):])
+        V0 = self.owner.V0(cx)
+        ins, sk, jof, dw = self.g_ins(cx), self.g_skipped(cx), self.g_jof(cx), self.g_dw(cx)
+        if inserted:
+            return [sk(k) == False, ins(k + 1) == ins(k) + 1, jof(c0 + ins(k) + 1) == k]
+        s = z3.Const('s!dw', Node)
+        body = lambda x: A(V0.is_story(x), V0.sid(x) == self.cid(cx, lp, k))
+        return [sk(k) == True, ins(k + 1) == ins(k),
+                ('skolem', 'duplicate_exists', z3.Exists([s], body(s)), body(dw(k)))]
+
+    def iteration(self, cx, lp):
+        V0 = self.owner.V0(cx)
+        w = lp.st.warns
+        inserted = any(x[0] == 'kids' for x in lp.st.writes[len(lp.head.writes):])
+        s = z3.Const('s!it', Node)
+        isdup = z3.Exists([s], A(V0.is_story(s), V0.sid(s) == self.cid(cx, lp, lp.k)))
+        if w == [] and inserted:
+            return [('C06.no_warning_means_inserted_and_not_duplicate', z3.Not(isdup))]
+        if w == ['DuplicateStoryWarning'] and not inserted:
+            return [('C06.exactly_one_DuplicateStoryWarning_only_for_a_duplicate', isdup)]
+        return [('C06.one_warning_per_skipped_story_none_otherwise', z3.BoolVal(False))]
+
+
+class InsertStoriesContract(CarriedStories, MergeContract):
+    """shared by roStoryInsert and roElementAction INSERT (stories)"""
+    frame = 'base'
+    blank_target_means_end = False
+
+    def shape(self, cx):
+        return self.carried_shape(cx)
+
+    def loop(self, ordinal):
+        if ordinal == 0:
+            return SkippingStoryInsertLoop(self)
+
+    def target_id(self, cx):
+        raise NotImplementedError
+
+    def ensures(self, cx, ex):
+        V0, H0, H1 = self.V0(cx), cx.H, ex.H
+        P = V0.base
+        n = self.n_carried(cx)
+        c0 = cx.clock
+        lp = ex.loop(0)
+        L0 = self.loop(0)
+        out = self.std_normal(cx, ex)
+        if lp is None or getattr(lp, 'broke', False):
+            out.append(('C06.every_carried_story_is_processed', z3.BoolVal(False)))
+            return out
+        ins, sk = (lambda j: L0.ins(cx, j)), (lambda j: L0.skipped(cx, j))
+        newn = lambda j: cp(c0 + ins(j) + 1, self.carried(cx, j))
+        cid = lambda j: text(H0.find(self.carried(cx, j), cx.W.lit('storyID')))
+        tid = self.target_id(cx)
+        uniq = unique_story_ids(V0)
+        j, j2 = z3.Ints('j!e j2!e')
+        out.append(('C01+C03.old_children_keep_order', keep_order(H0, H1, P, lambda z: z3.BoolVal(False))))
+        blk = lambda t_before: z3.ForAll([j], Imp(A(0 <= j, j < n, z3.Not(sk(j))),
+                                                  A(H1.mem(P, newn(j)), H1.tag(newn(j)) == cx.W.lit('story'),
+                                                    text(H1.find(newn(j), cx.W.lit('storyID'))) == cid(j),
+                                                    forall_nodes(1, lambda z: Imp(H0.mem(P, z), (H1.pos(P, z) < H1.pos(P, newn(j))) == t_before(z))),
+                                                    z3.ForAll([j2], Imp(A(0 <= j2, j2 < j, z3.Not(sk(j2))), H1.pos(P, newn(j2)) < H1.pos(P, newn(j)))))))
+        out.append(('C01+C04.inserted_in_message_order_immediately_before_target',
+                    forall_nodes(1, lambda t: Imp(A(uniq, resolves(V0, tid, t)), blk(lambda z: H0.pos(P, z) < H0.pos(P, t))))))
+        if self.blank_target_means_end:
+            out.append(('C01+C04.inserted_at_end_when_target_blank', Imp(tid == none_s, blk(lambda z: z3.BoolVal(True)))))
+        out.append(('C01.skipped_exactly_the_duplicates',
+                    z3.ForAll([j], Imp(A(0 <= j, j < n),
+                                       sk(j) == z3.Exists([z3.Const('s!sk', Node)],
+                                                          A(V0.is_story(z3.Const('s!sk', Node)), V0.sid(z3.Const('s!sk', Node)) == cid(j)))))))
+        out.append(('C01.no_other_story_added',
+                    forall_nodes(1, lambda z: Imp(H1.mem(P, z),
+                                                  z3.Or(H0.mem(P, z),
+                                                        z3.Exists([j], A(0 <= j, j < n, z3.Not(sk(j)), z == newn(j))))))))
+        out.append(('C03.unresolvable_target_is_inert',
+                    Imp(A(none_resolves(V0, tid), z3.BoolVal(not self.blank_target_means_end) if not self.blank_target_means_end else tid != none_s),
+                        list_same(H0, H1, P))))
+        return out
+
+    def raises(self, cx, ex):
+        V0 = self.V0(cx)
+        tid = self.target_id(cx)
+        out = self.std_raise(cx, ex)
+        ok = z3.Not(none_resolves(V0, tid))
+        if self.blank_target_means_end:
+            ok = z3.Or(ok, tid == none_s)
+        out.append(('C01.no_error_when_references_resolve', z3.Not(ok)))
+        return out
+
+
+@contract('mosromgr.mostypes.StoryInsert.merge')
+class StoryInsertMerge(InsertStoriesContract):
+    props = ('C01', 'C03', 'C04', 'C05', 'C06', 'C12', 'C13', 'C14')
+    cls_name = 'StoryInsert'
+    base_tag_name = 'roStoryInsert'
+
+    def target_id(self, cx):
+        return text(cx.H.find(self.mb(cx), cx.W.lit('storyID')))
+
+    def shape(self, cx):
+        return self.carried_shape(cx) + [('Shape.target_storyID_tag_present', cx.H.find(self.mb(cx), cx.W.lit('storyID')) != null)]
